@@ -1,11 +1,6 @@
-From Xdis Require Import Base.Prelude Base.Result Base.LE Model.Magic Model.Load Gen.Magics Gen.RefMagics Spec.Registry Spec.Header.
+From Xdis Require Import Base.Prelude Base.Result Base.LE Model.Magic Model.Load Gen.Magics Gen.RefMagics Spec.Registry Spec.Header Proofs.HeaderDefs.
 From Coq Require Import ZifyBool.
 Ltac Zify.zify_post_hook ::= Z.to_euclidean_division_equations.
-
-(* the header form the model chooses, as a function of what `decide` produced *)
-Definition model_kind (mi : Z) (ver : list Z) : hkind :=
-  if zmem mi [3439] || tuple_geb ver [3; 7] then Pep552
-  else if ((3200 <=? mi) && (mi <? 20121) && tuple_geb ver [1; 5]) || zmem mi pypy3_magics then TsSize else TsOnly.
 
 Lemma land1_mod2 b : 0 <= b -> Z.land b 1 = b mod 2.
 Proof. intros H. change 1 with (Z.ones 1). rewrite Z.land_ones by lia. reflexivity. Qed.
@@ -38,24 +33,6 @@ Proof.
     + destruct r as [|t0 [|t1 [|t2 [|t3 rest]]]]; cbn [spec_fields]; try discriminate.
       intros H; inversion H; subst. reflexivity.
 Qed.
-
-(* the released magics the property quantifies over, with the 4 bytes found in the file *)
-Definition magic_bytes (m : Z) : list Z := match int2magic m with Some b => b | None => [] end.
-Definition released_all : list (Z * list Z * list Z) :=
-  map (fun '(m, v) => (m, v, magic_bytes m)) (released_cpython ++ released_pre15) ++ corpus_pypy.
-
-(* documented normalisation: PyPy 3.2's magic 48 is reported as 3180+7 *)
-Definition norm_magic (m : Z) : Z := if m =? 48 then 3187 else m.
-
-Definition decide_row_ok (row : Z * list Z * list Z) : bool :=
-  let '(m, v, mb) := row in
-  match decide mb with
-  | DHeader tv mi ver =>
-      zlist_eqb (firstn 2 tv) v && (mi =? norm_magic m) && negb (mi =? 3393) && hkind_eqb (model_kind mi ver) (spec_kind v)
-      && Bool.eqb (is_pypy mi false) (existsb (fun '(m', _, _) => m' =? m) corpus_pypy && negb (m =? 3413))
-  | _ => false
-  end.
-Definition decide_failures := filter (fun row => negb (decide_row_ok row)) released_all.
 
 Lemma decide_row_sound m v mb : decide_row_ok (m, v, mb) = true ->
   exists tv mi ver, decide mb = DHeader tv mi ver /\ firstn 2 tv = v /\ mi = norm_magic m /\ mi <> 3393
